@@ -160,7 +160,7 @@ Definition op_okb (v : sview) (op : sinkop) : bool :=
     implb ip (in_set annotation_xml_name (q_ns name, q_local name))
   | OpCreateComment h _ | OpCreatePi h _ _ => Nat.eqb h (length (sv_elems v))
   | OpAppend p c => v_container v p && v_child v c
-  | OpAppendBeforeSibling sb c => v_known v sb && v_child v c
+  | OpAppendBeforeSibling _ _ => false      (* never emitted: insertion points are LastChild / TableFoster *)
   | OpAppendBasedOnParent e p c => v_elem v e && v_elem v p && v_child v c
   | OpAddAttrsIfMissing t _ => v_elem v t
   | OpRemoveFromParent t => v_known v t
